@@ -14,15 +14,15 @@ import (
 
 func init() {
 	register(&Rule{
-		Name: "STUBTABLE",
-		Doc: "every native stub name bound in internal/native.stubs is an entry of avx.Funcs, avx2.Funcs and sse.Funcs; the three tables list the same names; each use<Flavour>() passes its own flavour's text AND its own flavour's Funcs table to loader.WrapGoC; init() dispatches cpu.Has<Flavour> to use<Flavour>",
+		Name:    "STUBTABLE",
+		Doc:     "every native stub name bound in internal/native.stubs is an entry of avx.Funcs, avx2.Funcs and sse.Funcs; the three tables list the same names; each use<Flavour>() passes its own flavour's text AND its own flavour's Funcs table to loader.WrapGoC; init() dispatches cpu.Has<Flavour> to use<Flavour>",
 		Configs: "N",
 		Floor:   map[string]int{"N": 20},
 		Run:     runStubTable,
 	})
 	register(&Rule{
-		Name: "TAGPARTITION",
-		Doc: "in every package that has build-constrained native/portable twin files, the //go:build expressions over {amd64, go1.25} of the two groups are exact complements (every platform/toolchain combination selects exactly one implementation of each symbol) and all files of one group carry the same constraint",
+		Name:    "TAGPARTITION",
+		Doc:     "in every package that has build-constrained native/portable twin files, the //go:build expressions over {amd64, go1.25} of the two groups are exact complements (every platform/toolchain combination selects exactly one implementation of each symbol) and all files of one group carry the same constraint",
 		Configs: "N",
 		Floor:   map[string]int{"N": 4},
 		Run:     runTagPartition,
